@@ -423,5 +423,72 @@ theorem filterTxRel_spec (F : FilterCtx c s0 ready chain rest b B0) {bm : BlockM
   | false =>
     exact ⟨none, by simp, by simp, fun _ => rfl⟩
 
+-- ------------------------------------------------------------------ (e) the whole block
+
+theorem occsFrom_snoc (bm : BlockMeta) (pre : List Tx) (tx : Tx) :
+    occsFrom bm (pre ++ [tx]) 0 = occsFrom bm pre 0 ++ [⟨bm, pre.length, tx⟩] := by
+  rw [occsFrom_append, Nat.zero_add]; rfl
+
+theorem filterTxs_spec (F : FilterCtx c s0 ready chain rest b B0) (post : List Tx) :
+    ∀ (pre : List Tx) (acc : List TxRec) (B : Book), b.txs = pre ++ post →
+      Glob c.own (occs chain ++ occsFrom ⟨b.height, b.id⟩ pre 0) B →
+      ValidFrom c.own (occs chain ++ occsFrom ⟨b.height, b.id⟩ pre 0) (occsFrom ⟨b.height, b.id⟩ post pre.length) →
+      ∃ recs, filterTxs c s0 ready b.id post pre pre.length acc = .ok (acc ++ recs) ∧
+        Matches c.p c.own B (occsFrom ⟨b.height, b.id⟩ post pre.length) recs := by
+  induction post with
+  | nil =>
+    intro pre acc B _ _ _
+    refine ⟨[], by simp [filterTxs], ?_⟩
+    simp [occsFrom, Matches]
+  | cons tx post ih =>
+    intro pre acc B hsplit hG hV
+    obtain ⟨hV1, hV2⟩ := hV
+    have hG' := glob_step (p := c.p) hG hV1
+    rw [List.append_assoc, ← occsFrom_snoc] at hG' hV2
+    have hlen : (pre ++ [tx]).length = pre.length + 1 := by simp
+    rw [← hlen] at hV2
+    have hsplit' : b.txs = (pre ++ [tx]) ++ post := by rw [hsplit]; simp
+    obtain ⟨r, hr, hr1, hr2⟩ := filterTxRel_spec F hG hV1
+    rw [filterTxs, hr, M_ok_bind]
+    simp only [occsFrom]
+    unfold Matches
+    cases ht : touches c.own B tx with
+    | true =>
+      obtain ⟨tr, rfl, htx, hin, hout⟩ := hr1 ht
+      obtain ⟨recs', h1, h2⟩ := ih (pre ++ [tx]) (acc ++ [{ tr with loc := (b.id, pre.length) }]) _ hsplit' hG' hV2
+      rw [hlen] at h1 h2
+      refine ⟨{ tr with loc := (b.id, pre.length) } :: recs', ?_, ?_⟩
+      · simp only; rw [h1, List.append_assoc]; rfl
+      · simp only [if_true]
+        exact ⟨_, _, rfl, ⟨htx, rfl, hin, hout⟩, h2⟩
+    | false =>
+      have hnone := hr2 ht
+      subst hnone
+      have hun : applyOcc c.p c.own B ⟨⟨b.height, b.id⟩, pre.length, tx⟩ = B := applyOcc_untouched ht
+      rw [hun] at hG'
+      obtain ⟨recs', h1, h2⟩ := ih (pre ++ [tx]) acc B hsplit' hG' hV2
+      rw [hlen] at h1 h2
+      refine ⟨recs', h1, ?_⟩
+      simp only [Bool.false_eq_true, if_false]
+      rw [hun]; exact h2
+
+/-- the first loop of filterBlock on the whole block -/
+theorem filterTxs_block (F : FilterCtx c s0 ready chain rest b B0)
+    (hV : ValidFrom c.own (occs chain) (occsOfBlock b)) :
+    ∃ recs, filterTxs c s0 ready b.id b.txs [] 0 [] = .ok recs ∧ Matches c.p c.own B0 (occsOfBlock b) recs := by
+  have := filterTxs_spec F b.txs [] [] B0 rfl (by simpa [occsFrom] using F.hglob0)
+    (by simpa [occsFrom, occsOfBlock] using hV)
+  simpa [occsOfBlock] using this
+
+/-- the validity hypothesis of `filterTxs_block` follows from the validity of the node's chain -/
+theorem FilterCtx.valid_block (F : FilterCtx c s0 ready chain rest b B0) :
+    ValidFrom c.own (occs chain) (occsOfBlock b) := by
+  have h := F.hvalid
+  unfold ChainValid at h
+  rw [F.hnode, occs_append, validFrom_append, List.nil_append] at h
+  have h2 := h.2
+  rw [show b :: rest = [b] ++ rest from rfl, occs_append, validFrom_append] at h2
+  simpa [occs] using h2.1
+
 end
 end MW.Lemmas.Ledger
